@@ -81,6 +81,21 @@ def seeded_variants(prop):
     return out
 
 
+def benign_patch_variants(prop):
+    """Behaviour-preserving refactorings written by independent sub-agents
+    (kept under /verif/benign/*.diff): every check must stay silent on each."""
+    out = []
+    root = os.path.join(VERIF, 'benign')
+    if not os.path.isdir(root):
+        return out
+    for fn in sorted(os.listdir(root)):
+        if fn.endswith('.diff'):
+            out.append(dict(id='benign:' + fn[:-5], prop=prop, rule=None,
+                            kind='benign', edits=[],
+                            patch=os.path.join(root, fn), function=None))
+    return out
+
+
 def run_variant(args):
     v, repo_root = args
     warnings.simplefilter('ignore')
@@ -152,7 +167,8 @@ def run_variants(variants, repo_root, jobs=16):
 
 def run_for_property(prop, repo_root):
     from .variants import VARIANTS
-    vs = [v for v in VARIANTS if v['prop'] == prop] + seeded_variants(prop)
+    vs = [v for v in VARIANTS if v['prop'] == prop] + seeded_variants(prop) \
+        + benign_patch_variants(prop)
     t0 = time.time()
     results = run_variants(vs, repo_root)
     lines = []
@@ -161,6 +177,8 @@ def run_for_property(prop, repo_root):
         flag = 'ok  ' if r['ok'] else ('STALE' if r.get('stale') else 'BAD ')
         if not r['ok'] and not r.get('stale'):
             bad += 1
+        if r['ok'] and r['id'].startswith('benign:'):
+            continue        # 88 silent lines per property are not worth printing
         lines.append('  selftest %-5s %-6s %-28s %-6s %s'
                      % (flag, r['kind'], r['id'], r.get('rule') or '',
                         r['detail'][:110]))
@@ -187,7 +205,11 @@ def merge_into_evidence(prop, st):
         benign_total=sum(1 for r in rs if r['kind'] == 'benign'),
         stale=sum(1 for r in rs if r.get('stale')),
         samples=[dict(id=r['id'], kind=r['kind'], rule=r.get('rule'),
-                      ok=r['ok'], detail=r['detail'][:160]) for r in rs[:40]])
+                      ok=r['ok'], detail=r['detail'][:160])
+                 for r in rs if not r['id'].startswith('benign:')][:40],
+        benign_patches=sum(1 for r in rs if r['id'].startswith('benign:')),
+        benign_patches_silent=sum(1 for r in rs if r['id'].startswith('benign:')
+                                  and r['ok']))
     ev['wall_s'] = round(ev.get('wall_s', 0) + st['wall_s'], 3)
     with open(p, 'w') as f:
         json.dump(ev, f, indent=1, sort_keys=True)
